@@ -22,7 +22,10 @@ AllKeys == 1 .. 6
 \* operations: <<kind, key>> coded as kind * 10 + key
 \*   1 insert by index   2 insert by dot   3 op-assign by index   4 op-assign by dot
 \*   5 read by index     6 read by dot
+\*   7 insert by an interpolated-string index   8 op-assign by a computed (concatenated) index
+\*   9 read by an interpolated-string index
 OpCodes == {10 + kx : kx \in AllKeys} \cup {20 + kx : kx \in IdentKeys}
+           \cup {70 + kx : kx \in {1, 6}} \cup {80 + kx : kx \in {1, 3}} \cup {90 + kx : kx \in {1, 6}}
            \cup {30 + kx : kx \in {1, 2, 5}} \cup {40 + kx : kx \in {1, 2}}
            \cup {50 + kx : kx \in {1, 3, 6}} \cup {60 + kx : kx \in {1, 4}}
 
@@ -35,13 +38,16 @@ OpStmt(code, n, obj) ==
       [] kind = 4 -> SOpAssign(EProp(EVar(obj), key), "+", EInt(n))
       [] kind = 5 -> SPrint(EIndex(EVar(obj), EStr(key)))
       [] kind = 6 -> SPrint(EProp(EVar(obj), key))
+      [] kind = 7 -> SAssign(EIndex(EVar(obj), EIStr(<<Lit(<<>>), SlotP(0, EStr(key)), Lit(<<>>)>>)), EInt(n))
+      [] kind = 8 -> SOpAssign(EIndex(EVar(obj), EBin("+", EStr(<<>>), EStr(key))), "+", EInt(n))
+      [] kind = 9 -> SPrint(EIndex(EVar(obj), EIStr(<<Lit(key), SlotP(0, EStr(<<>>)), Lit(<<>>)>>)))
 
 \* the same operation through the other access path (identifier keys only)
 OtherPath(code) ==
     LET kind == code \div 10 IN
     IF Md(code, 10) \in IdentKeys
     THEN (CASE kind = 1 -> 20 [] kind = 2 -> 10 [] kind = 3 -> 40 [] kind = 4 -> 30
-            [] kind = 5 -> 60 [] kind = 6 -> 50) + Md(code, 10)
+            [] kind = 5 -> 60 [] kind = 6 -> 50 [] kind = 7 -> 20 [] kind = 8 -> 40 [] kind = 9 -> 60) + Md(code, 10)
     ELSE code
 
 Observe(obj) == <<SPrint(EVar(obj)), SFor(EVar(Kv), EVar(obj), <<SPrint(EVar(Kv))>>)>>
@@ -109,6 +115,10 @@ C12ProgOf(p) ==
               SDecl(EVar(Q), EObj(<<Pair(EStr(<<97>>), EInt(1)), Pair(EStr(<<99>>), EInt(3))>>)),
               SDecl(EVar(O), Lits[p[3]])>>
             \o Observe(O)
+            \* the literal is a new object: later changes of its sources do not show through it
+            \o <<SAssign(EProp(EVar(Q), <<97>>), EInt(77)), SAssign(EIndex(EVar(Q), EStr(<<122>>)), EInt(78)),
+                 SAssign(EIndex(EVar(O), EStr(<<110, 101, 119>>)), EInt(79))>>
+            \o Observe(O) \o <<SPrint(EVar(Q)), SPrint(EBin("===", EVar(O), EVar(Q)))>>
 
 -----------------------------------------------------------------------------
 Finished == status.k # "running"
